@@ -77,9 +77,9 @@ var extremeBytes = []byte{0x00, 0x01, 0x7f, 0x80, 0xfe, 0xff}
 
 // Bytes32 draws a 32-byte string from a mixture that favours the shapes the
 // properties single out: uniform; leading 0x00 / 0xFF runs; values around 0, n,
-// p and 2^256; long runs; single bits. The class label is returned.
+// p and 2^256; long runs; single bits; word-structured values (see Limbs). The class label is returned.
 func Bytes32(t *rapid.T, label string) ([]byte, string) {
-	cls := rapid.SampledFrom([]string{"uniform", "uniform", "uniform", "lead00", "leadFF", "near", "runs", "onebit", "extbytes"}).Draw(t, label+".class")
+	cls := rapid.SampledFrom([]string{"uniform", "uniform", "uniform", "lead00", "leadFF", "near", "runs", "onebit", "extbytes", "limbs"}).Draw(t, label+".class")
 	r := Rand(t, label+".seed")
 	b := RandBytes(r, 32)
 	switch cls {
@@ -141,6 +141,10 @@ func Bytes32(t *rapid.T, label string) ([]byte, string) {
 		for i := range b {
 			b[i] = extremeBytes[r.Intn(len(extremeBytes))]
 		}
+	case "limbs":
+		// word-structured: each 64-bit limb from {0,1,2,2^32-1,2^32,2^63,2^64-1} or uniform
+		v, c := Limbs(t, label+".limbs")
+		b, cls = Pad32(v), c
 	}
 	return b, cls
 }
